@@ -324,33 +324,28 @@ def r4_declarations(chk: Check):
 
 def r5_full_identifier(chk: Check):
     """R5: the full identifier adds only pre-task and init-task raw identifiers to the raw one"""
-    from ..hashmodel import extract_fn, class_bytes_constants
+    from ..dataflow import expansions
 
     tree = chk.tree
-    tags = class_bytes_constants(tree.cls("core.objects", "HashComputer").node)
-    raw = extract_fn(tree, "core.objects", "ConfigInformation.identifiers", tags)["raw"]
     f = tree.func("core.objects", "ConfigInformation.identifiers")
+    g = CFG(f.node)
+    rd = ReachingDefs(g)
+    hashers = fn_hashers(f.node)
     bad, n = [], 0
-
-    def walk(terms, iters):
-        nonlocal n
-        for t in terms:
-            if t[0] == "emit":
-                n += 1
-                txt = json.dumps(t[1], ensure_ascii=False)
-                ok = "raw_identifier" in txt or (t[1][0] == "tag" and t[1][1] == "INIT_TASKS") or (
-                    t[1][0] == "bytes" and t[1][1].startswith("\u00abfor:") and any("raw_identifier" in i for i in iters))
-                if not ok:
-                    bad.append(txt)
-            elif t[0] == "if":
-                walk(t[2], iters)
-                walk(t[3], iters)
-            elif t[0] == "for":
-                walk(t[2], iters + [t[1]])
-            elif t[0] == "rec":
-                bad.append(json.dumps(t, ensure_ascii=False))
-
-    walk(raw, [])
+    for node in g.live:
+        for c in node.calls():
+            d = dotted(c.func) or ""
+            if not (d.split(".")[-1] == "update" and ".".join(d.split(".")[:-1]) in hashers):
+                continue
+            n += 1
+            arg = c.args[0]
+            if dotted(arg) and dotted(arg).endswith(".INIT_TASKS"):
+                continue
+            texts = expansions(rd, arg, node)
+            ok = all(("raw_identifier" in t and t.endswith(".all")) or ("HashComputer.compute(self.pyobject)" in t and t.endswith(".all"))
+                     or (t.startswith("ELEM(") and "raw_identifier.all" in t) for t in texts)
+            if not ok:
+                bad.append(sorted(texts)[:3])
     chk.require(not bad and n >= 3, chk.fkey(f, "full identifier inputs"),
                 f"the full identifier hashes something other than raw / pre-task / init-task identifiers: {bad}", chk.loc(f.module, f.node),
                 okmsg=f"{n} hasher inputs: raw identifier, sorted pre-task identifiers, INIT_TASKS marker, init-task identifiers")
